@@ -150,7 +150,16 @@ func (p *proxyConn) handleMITM(req *http.Request) error {
 	// Successful CONNECT response does not invoke trace.
 	p.traceWroteResponse(res, nil)
 
+	// Wait for the first byte of the session no longer than for the next request.
+	if d := p.idleTimeout(); d > 0 {
+		if deadlineErr := p.conn.SetReadDeadline(time.Now().Add(d)); deadlineErr != nil {
+			log.Error(ctx, "can't set idle deadline", "error", deadlineErr)
+		}
+	}
 	b, err := p.brw.Peek(1)
+	if deadlineErr := p.conn.SetReadDeadline(time.Time{}); deadlineErr != nil && err == nil {
+		log.Error(ctx, "can't clear idle deadline", "error", deadlineErr)
+	}
 	if err != nil {
 		if isClosedConnError(err) {
 			log.Debug(ctx, "mitm: connection closed prematurely", "error", err)
